@@ -1,5 +1,6 @@
 import PSO.Proofs.BatteriesRefine
 import PSO.Proofs.BatteriesSpec
+import PSO.Proofs.BatteriesChoice
 /-!
 # C15 — batteries behave like the Python containers they mimic, on every replica
 
@@ -8,8 +9,10 @@ builtin given the same call (both executed by `driver batteries` and diffed agai
 builtins on every check).  `runOps` applies an arbitrary operation sequence over ALL public methods
 with arbitrary integer arguments, optional arguments present or omitted.
 
-`ReplSet.pop` (D20 repaired, /repo 56b6cb5) removes `min(data, key=(type name, repr))`: on ints the
-element with the smallest decimal string, `PySet.minRepr` — a function of the CONTENTS.  The reference
+`ReplSet.pop` (D20 repaired, /repo 56b6cb5; D85, /repo d72ca52) removes `min(data, key=_valueKey)`: on ints the
+element with the smallest `(type name, repr)`, i.e. the smallest decimal string, `PySet.minRepr` — a function of the
+CONTENTS; for tuple / frozenset members see the D85 section below (key = sorted member keys: invariant under every
+hash layout).  The reference
 for `pop` is the `set` ABSTRACTION (`RefSet.step choose`: some member, chosen by a function of the
 abstract set, is returned and exactly it is removed); the battery `ReplSet.step` is shown to be that
 abstraction with `choose := PySet.minRepr`, hence replicas (also rebuilt from snapshots) are equal:
@@ -246,6 +249,56 @@ theorem C15_set_replicas_equal_counterexample :
     cases s with
     | nil => exact absurd rfl hs
     | cons a t => simp only [List.getLastD_cons]; exact List.getLastD_mem_cons ..
+
+/-! ## `ReplSet.pop` beyond ints (repair D85): the member removed is a function of the SET of values
+
+Members: ints, atoms (type name + repr), tuples, frozensets given by an ENUMERATION (the iteration order of their own
+hash table).  `PySet.valueKey` transcribes `batteries._valueKey`, `PySet.Key.lt` Python's `<` on those keys,
+`PySet.chooseMember`/`chooseIdx` = `min(enumeration, key=_valueKey)` (diffed against the real `ReplSet.pop` on sets of
+such members by `corr.batteries_mixed`, driver class `members`). -/
+
+/-- Python's `<` on the keys is a strict total order (irreflexive, transitive, and two keys neither of which is
+smaller are EQUAL), so `min` and `sorted` are well defined whatever the iteration order. -/
+theorem C15_set_member_key_order_strict_total : PySet.StrictTotal PySet.Key.lt := PySet.Key.lt_strictTotal
+
+/-- the key of a frozenset member depends only on the multiset of its members' keys — not on the iteration order of
+its own hash table (which differs between a value received through the log and the same value restored from a
+snapshot: the defect D85), nor on the layouts of nested set-valued members; tuples: only on the members' keys. -/
+theorem C15_set_member_key_layout_invariant (l l' : List PySet.Member) :
+    ((l.map PySet.valueKey).Perm (l'.map PySet.valueKey) → PySet.valueKey (.fset l) = PySet.valueKey (.fset l')) ∧
+    (l.Perm l' → PySet.valueKey (.fset l) = PySet.valueKey (.fset l')) ∧
+    (l.map PySet.valueKey = l'.map PySet.valueKey → PySet.valueKey (.tup l) = PySet.valueKey (.tup l')) :=
+  ⟨PySet.valueKey_fset_congr l l', fun hp => PySet.valueKey_fset_congr l l' (hp.map _), PySet.valueKey_tup_congr l l'⟩
+
+/-- the instance of D85: 45 and 53 enumerated either way give one key; `frozenset({50})` does not sort between -/
+example : PySet.Key.cmp (PySet.valueKey (.fset [.int 45, .int 53])) (PySet.valueKey (.fset [.int 53, .int 45])) = .eq ∧
+    PySet.chooseIdx [.fset [.int 53, .int 45], .fset [.int 50]] = some 0 ∧
+    PySet.chooseIdx [.fset [.int 50], .fset [.int 45, .int 53]] = some 1 := by decide
+
+/-- invariance under the hash layout of the SET: any two enumerations of the same members (keys distinguishing them)
+yield the same member. -/
+theorem C15_set_pop_choice_layout_invariant (l l' : List PySet.Member)
+    (hinj : ∀ x ∈ l, ∀ y ∈ l, PySet.valueKey x = PySet.valueKey y → x = y) (hsame : ∀ x, x ∈ l ↔ x ∈ l') :
+    PySet.chooseMember l = PySet.chooseMember l' :=
+  PySet.pickMinBy_enum_invariant PySet.Key.lt PySet.Key.lt_strictTotal PySet.valueKey l l' hinj hsame
+
+/-- replicas: two sets holding the same VALUES (the same keys) — whatever the insertion order, the hash layout of the
+sets and the layouts of their set-valued members (log vs. snapshot) — choose members with the same key, i.e. the same
+value.  The chosen member is a member, and no member has a smaller key. -/
+theorem C15_set_pop_choice_value_invariant (l l' : List PySet.Member)
+    (hsame : ∀ k, k ∈ l.map PySet.valueKey ↔ k ∈ l'.map PySet.valueKey) :
+    (PySet.chooseMember l).map PySet.valueKey = (PySet.chooseMember l').map PySet.valueKey ∧
+    (l ≠ [] → ∃ m, PySet.chooseMember l = some m ∧ m ∈ l ∧ ∀ y ∈ l, PySet.Key.lt (PySet.valueKey y) (PySet.valueKey m) = false) :=
+  ⟨PySet.chooseMember_key_invariant l l' hsame,
+   fun hne => PySet.pickMinBy_spec PySet.Key.lt PySet.Key.lt_strictTotal PySet.valueKey l hne⟩
+
+/-- non-vacuity: two different enumerations (outer order and the frozenset's own order) of the same values -/
+example : (∀ k, k ∈ [PySet.Member.fset [.int 53, .int 45], .fset [.int 50]].map PySet.valueKey ↔
+                 k ∈ [PySet.Member.fset [.int 50], .fset [.int 45, .int 53]].map PySet.valueKey) := by
+  have e : PySet.valueKey (.fset [.int 53, .int 45]) = PySet.valueKey (.fset [.int 45, .int 53]) :=
+    PySet.valueKey_fset_congr _ _ (by simpa using List.Perm.swap _ _ [])
+  intro k; simp only [List.map_cons, List.map_nil, List.mem_cons, List.not_mem_nil, or_false, e]
+  constructor <;> (rintro (h | h) <;> simp [h])
 
 /-! ## the container specifications mean what they say (they are additionally diffed against the real
 builtins on every check) -/
